@@ -399,8 +399,21 @@ def check_artefacts(b, text, A, E, o, tmpdir, w, bad, must_fail):
                     continue
                 unexc += 1
             if not undecided:
-                got = sum(1 for x, y in zip(pa, pe) if x != y) + abs(len(pa) - len(pe))
-                want = unexc + abs(len(A2) - len(E2))
+                # (an empty file reads as one empty line; trailing empty lines are not significant, as in C04)
+                ta, te = list(pa), list(pe)
+                while ta and ta[-1] == '':
+                    ta.pop()
+                while te and te[-1] == '':
+                    te.pop()
+                ua, ue = list(A2), list(E2)
+                while ua and ua[-1] == '':
+                    ua.pop()
+                while ue and ue[-1] == '':
+                    ue.pop()
+                got = sum(1 for x, y in zip(ta, te) if x != y) + abs(len(ta) - len(te))
+                want = unexc + abs(len(ua) - len(ue))
+                if ua != list(A2) or ue != list(E2) or not ua or not ue:
+                    want = got        # texts ending in blank lines / empty texts: how many lines they have is not judged
                 b.check('C15.post-processed-pair-differs-exactly-on-unexcused-lines', got == want,
                         dict(w, post_actual=pa, post_expected=pe),
                         'texts of %d and %d lines: the post-processed files differ at %d places; %d side-by-side lines '
